@@ -16,13 +16,15 @@ func (e *Engine) harnessCall(st *State, th *Thread, fn *ssa.Function, args []Val
 	switch fn.Name() {
 	case "verifInt", "verifU8", "verifU16", "verifU32", "verifU64", "verifI64":
 		w, _, _ := intWidth(fn.Signature.Results().At(0).Type())
-		seq := len(st.inputs)
-		name := fmt.Sprintf("in_%d", seq)
+		seq := st.hseq
+		st.hseq++
+		name := fmt.Sprintf("in_%d", len(st.inputs))
 		st.inputs = append(st.inputs, Input{Kind: "int", Name: name, W: w, Seq: seq})
 		return IntV{tb.Var(name, w)}, true
 	case "verifBool":
-		seq := len(st.inputs)
-		name := fmt.Sprintf("in_%d", seq)
+		seq := st.hseq
+		st.hseq++
+		name := fmt.Sprintf("in_%d", len(st.inputs))
 		st.inputs = append(st.inputs, Input{Kind: "bool", Name: name, Seq: seq})
 		return BoolV{tb.BoolVar(name)}, true
 	case "verifBytes":
@@ -30,8 +32,9 @@ func (e *Engine) harnessCall(st *State, th *Thread, fn *ssa.Function, args []Val
 		if !n.IsConst() {
 			panic(engineErr("verifBytes: size must be concrete"))
 		}
-		seq := len(st.inputs)
-		name := fmt.Sprintf("buf_%d", seq)
+		seq := st.hseq
+		st.hseq++
+		name := fmt.Sprintf("buf_%d", len(st.inputs))
 		st.inputs = append(st.inputs, Input{Kind: "bytes", Name: name, N: int(n.C), Seq: seq})
 		o := st.newBytes(e, &Arr{kind: aBase, name: name}, n, "verifBytes")
 		return SliceV{Obj: o.id, Off: tb.BV(0, 64), Len: n, Cap: n}, true
@@ -40,8 +43,9 @@ func (e *Engine) harnessCall(st *State, th *Thread, fn *ssa.Function, args []Val
 		if !n.IsConst() {
 			panic(engineErr("verifString: size must be concrete"))
 		}
-		seq := len(st.inputs)
-		name := fmt.Sprintf("buf_%d", seq)
+		seq := st.hseq
+		st.hseq++
+		name := fmt.Sprintf("buf_%d", len(st.inputs))
 		st.inputs = append(st.inputs, Input{Kind: "bytes", Name: name, N: int(n.C), Seq: seq})
 		b := make([]*Term, n.C)
 		for i := range b {
@@ -77,7 +81,10 @@ func (e *Engine) harnessCall(st *State, th *Thread, fn *ssa.Function, args []Val
 		return nil, true
 	case "verifChoose":
 		n := args[0].(IntV).T
-		return IntV{tb.BV(uint64(e.choose(st, int(n.C), "h")), 64)}, true
+		k := e.choose(st, int(n.C), "h")
+		st.inputs = append(st.inputs, Input{Kind: "const", Name: fmt.Sprintf("choose_%d", len(st.inputs)), Val: uint64(k), Seq: st.hseq})
+		st.hseq++
+		return IntV{tb.BV(uint64(k), 64)}, true
 	case "verifSplit":
 		n := int(args[0].(IntV).T.C)
 		if e.splitN != 0 && e.splitN != n {
@@ -86,6 +93,8 @@ func (e *Engine) harnessCall(st *State, th *Thread, fn *ssa.Function, args []Val
 		if e.splitN == 0 {
 			panic(engineErr("verifSplit in a harness without declared split"))
 		}
+		st.inputs = append(st.inputs, Input{Kind: "const", Name: fmt.Sprintf("split_%d", len(st.inputs)), Val: uint64(e.splitK), Seq: st.hseq})
+		st.hseq++
 		return IntV{tb.BV(uint64(e.splitK), 64)}, true
 	case "verifTagInput":
 		s := args[0].(SliceV)
@@ -95,6 +104,8 @@ func (e *Engine) harnessCall(st *State, th *Thread, fn *ssa.Function, args []Val
 			o.limit = tb.Bin("bvadd", s.Off, s.Len)
 		}
 		return nil, true
+	case "verifCapFor":
+		return args[1], true
 	case "verifConcretize":
 		v := args[0].(IntV).T
 		return IntV{tb.BV(e.concretize(st, v), v.W)}, true
@@ -109,7 +120,8 @@ func (e *Engine) harnessCall(st *State, th *Thread, fn *ssa.Function, args []Val
 			return nil, true
 		}
 		if inner.Obj != outer.Obj {
-			e.assert(st, tb.ff, id+":provenance", fn, false)
+			// a different backing object is acceptable only for an empty slice
+			e.assert(st, tb.Cmp("=", inner.Len, tb.BV(0, 64)), id+":provenance", fn, false)
 			return nil, true
 		}
 		ok := tb.And(tb.Cmp("bvule", outer.Off, inner.Off), tb.Cmp("bvule", tb.Bin("bvadd", inner.Off, inner.Len), tb.Bin("bvadd", outer.Off, outer.Len)))
